@@ -151,13 +151,15 @@ def v2_quick_cue(rng, maxlabel=255):
 
 def v2_quick_cues(rng, maxlabel=255, bool_flag=True):
     n = rcount(rng, 12)
-    return {"cues": [v2_quick_cue(rng, maxlabel) for _ in range(n)], "adjusted": rdouble(rng),
+    adj = rdouble(rng)
+    return {"cues": [v2_quick_cue(rng, maxlabel) for _ in range(n)], "adjusted": adj,
             "is_adjusted": rng.choice([0, 1]) if bool_flag else rng.choice([0, 1, 2, 7, 255]),
-            "default": rdouble(rng), "extra": rextra(rng)}
+            "default": near(rng, adj) if rng.random() < 0.3 else rdouble(rng), "extra": rextra(rng)}
 
 
 def v2_loop(rng, maxlabel=255):
-    return {"label": rlabel(rng, maxlabel), "start": rdouble(rng), "end": rdouble(rng),
+    st = rdouble(rng)
+    return {"label": rlabel(rng, maxlabel), "start": st, "end": near(rng, st) if rng.random() < 0.25 else rdouble(rng),
             "ss": rng.choice([0, 1, 1, 2, 255]), "es": rng.choice([0, 1, 1, 3, 254]), "color": rcolor(rng)}
 
 
@@ -243,7 +245,8 @@ def v1_hot_cue(rng, maxlabel=255, minlabel=1):
 
 
 def v1_loop(rng, maxlabel=255, minlabel=1):
-    return {"label": rlabel(rng, maxlabel, minlabel), "start": rdouble(rng, avoid=(MINUS1,)), "end": rdouble(rng),
+    st = rdouble(rng, avoid=(MINUS1,))
+    return {"label": rlabel(rng, maxlabel, minlabel), "start": st, "end": near(rng, st) if rng.random() < 0.25 else rdouble(rng),
             "color": rcolor(rng)}
 
 
@@ -253,8 +256,30 @@ def v1_loops(rng, n=None):
     return {"loops": [opt(rng, lambda: v1_loop(rng)) for _ in range(n)]}
 
 
+def near(rng, h, avoid=()):
+    """A double that stands in a close relation to the one with bit pattern h: equal, the adjacent double on either side, or
+    off by a relative 1e-13 .. 1e-9 (where two related fields - adjusted and default main cue, loop start and end - are
+    compared, 'almost equal' is the interesting neighbourhood)."""
+    import math
+    import struct
+    x = struct.unpack(">d", bytes.fromhex(h))[0]
+    if x != x or x in (float("inf"), float("-inf")):
+        return h
+    r = rng.random()
+    if r < 0.25:
+        y = x
+    elif r < 0.55:
+        y = math.nextafter(x, math.inf if rng.random() < 0.5 else -math.inf)
+    else:
+        y = x * (1.0 + rng.choice([-1, 1]) * rng.choice([1e-13, 1e-12, 1e-10, 4e-10, 9e-10, 1.1e-9]))
+    out = dbits(y)
+    return h if out in avoid else out
+
+
 def v1_quick_cues(rng, n=8):
-    return {"cues": [opt(rng, lambda: v1_hot_cue(rng)) for _ in range(n)], "adjusted": rdouble(rng), "default": rdouble(rng)}
+    adj = rdouble(rng)
+    return {"cues": [opt(rng, lambda: v1_hot_cue(rng)) for _ in range(n)], "adjusted": adj,
+            "default": near(rng, adj) if rng.random() < 0.3 else rdouble(rng)}
 
 
 def v1_track_data(rng):
